@@ -36,10 +36,12 @@ cp $DST/$DEMO_FILE $S/$DEMO_PLACE
 rm $S/$DEMO_PLACE
 ( cd $S && go test -vet=off -count=1 ./... > $DST/.suite_with.log 2>&1 ); T=$?
 echo "build=$B suite_with_change=$T demo_without_change=$W0 demo_with_change=$W1   (want 0 0 0 nonzero)"
-# run all registered checks on the changed tree
+# run all registered checks on the changed tree, from a snapshot of /verif (so that work on /verif meanwhile cannot distort the result)
+SNAP=$(mktemp -d ${TMPDIR:-/var/tmp}/verif-snap.XXXXXX)
+rsync -a --exclude .git --exclude out --exclude evidence --exclude seeded /verif/ $SNAP/
 RES=""
 for p in $(python3 -c "import json;print(' '.join(c['property_id'] for c in json.load(open('/verif/MANIFEST.json'))['checks']))"); do
-  OUT=$(cd /verif && VERIF_REPO=$S ./check $p 2>&1); RC=$?
+  OUT=$(set -o pipefail; VERIF_REPO=$S VERIF_EVIDENCE_DIR=$S/.evidence $SNAP/check $p 2>&1 | sed "s#$SNAP#/verif#g"); RC=$?
   V=$(echo "$OUT" | grep -c '^VIOLATION')
   U=$(echo "$OUT" | grep -c '^UNDECIDED')
   if [ $RC -ne 0 ]; then RES="$RES $p(rc=$RC,viol=$V,undecided=$U)"; echo "$OUT" | grep -e '^VIOLATION' -e '^UNDECIDED' | cut -c1-260 | head -4; fi
@@ -54,5 +56,5 @@ m['confirmed_by_us']={'build_rc':int(b),'existing_suite_with_change_rc':int(t),'
 m['checks_raising']=res.strip()
 json.dump(m,open(d+'/meta.json','w'),indent=1)
 PY
-rm -rf $S $DST/.build.log
+rm -rf $S $SNAP $DST/.build.log
 # restore evidence for the unchanged tree is the caller's job (checks rewrite evidence on every run)
